@@ -22,8 +22,8 @@ func init() {
 	register(&Prop{
 		ID:       "C06",
 		Category: "model_checking",
-		Rule: "(a) gzip header product: Name, Comment in {empty, \"a\", Latin-1 \"\\u00e9\", 511 chars} x Extra in {nil, empty, 1 byte, 65535 bytes} x ModTime in {zero, 1 s, 2^32-1 s} x OS in {0,3,255} (576 headers) x levels {1,-2,6} x both directions, plus headers the standard library rejects (non-Latin-1, NUL, oversize Extra); " +
-			"(b) payload in {tiny strings up to length 6 over {a,b}, the reduced pieces} x every level -2..9 x call pattern in {W C, W F W C, F C, C, 1-byte writes} x {new writer, writer reused through Reset after a first stream} x gzip / zlib / zlib with a 20-byte and a 40000-byte dictionary x both directions; " +
+		Rule: "(a) gzip header product: Name, Comment in {empty, \"a\", Latin-1 \"\\u00e9\", 511 chars} x Extra in {nil, empty, 1 byte, 65535 bytes} x ModTime in {zero, 1 s, 2^32-1 s} x OS in {0,3,255} (576 headers) x levels {1,-2,6} (every level -2..9 in thorough) x both directions, plus headers the standard library rejects (non-Latin-1, NUL, oversize Extra); " +
+			"(b) payload in {tiny strings up to length 6 (9 thorough) over {a,b}, the reduced pieces} x every level -2..9 x call pattern in {W C, W F W C, F C, C, 1-byte writes} x {new writer, writer reused through Reset after a first stream} x gzip / zlib / zlib with a 20-byte and a 40000-byte dictionary x both directions; " +
 			"oracle: the standard library reads fastgo's output as the same payload and header it reads from its own output; fastgo reads the standard library's output as the standard library does; the trailer is CRC-32 || length mod 2^32 (gzip, little endian) / Adler-32 (zlib, big endian) recomputed by the harness; header errors agree; non-trivial = payload not empty",
 		Assumptions: []string{"compress/gzip and compress/zlib talking to themselves define the normal form"},
 		Quick:       TierSpec{MaxDev: -1, Shards: 4, ShardDepth: 3, BudgetS: 150},
@@ -93,8 +93,15 @@ func c06Harness(cfg *Cfg) func(x *mc.Exec) {
 	oss := []byte{0, 3, 255}
 	badHdrs := []stdgzip.Header{{Name: "\u4e16"}, {Comment: "\u4e16"}, {Name: "a\x00b"}, {Extra: make([]byte, 65536)}, {Comment: "x\x00"}}
 	hdrLevels := []int{1, -2, 6}
+	if cfg.Thorough {
+		hdrLevels = []int{-2, -1, 0, 1, 2, 3, 4, 5, 6, 7, 8, 9}
+	}
 	var payloads []pieces.Piece
-	for _, t := range pieces.Tiny(2, 6) {
+	tl := 6
+	if cfg.Thorough {
+		tl = 9
+	}
+	for _, t := range pieces.Tiny(2, tl) {
 		payloads = append(payloads, pieces.P(fmt.Sprintf("%q", t), t))
 	}
 	red := pieces.Reduced(pieces.T32, cfg.Seed)
